@@ -1,4 +1,10 @@
 """C07 share_placement: complete, respects read-only servers, maximal spread."""
+META = {
+    "level": 'exploration',
+    "technique": 'runtime oracle on the real share_placement(): exhaustive enumeration of small layouts + seeded random layouts, judged by an independent Kuhn matching',
+    "text": 'Executes the real share_placement on every layout with <=4 servers x <=5 shares (thorough, complete; quick samples it) and on random layouts up to 20x30; an independent augmenting-path matching decides completeness, read-only respect and optimal spread. Exhaustive on the small bound, sampled beyond it.',
+    "note": 'Trusts the 15-line Kuhn matching model (self-tested) and that inputs are shaped as PeerSelector produces them (rw/ro disjoint, >=1 rw).',
+}
 import itertools
 from vf import env  # noqa
 from vf.models import max_matching
